@@ -63,6 +63,19 @@ FixLeaf(q) == IF q[1] = "rng" /\ q[3][1] = "unb" /\ q[4][1] = "unb" THEN <<"rng"
 Occ(x) == (<<"", "", "+", "+", "-">>)[(x % 5) + 1]
 
 \* steering: `n:>=1^2` takes `1^2` as the bound (boosted ranges are printed in parentheses)
+\* inside a field group: `*` would become an exists query (unsupported); words of the body lose their own
+\* field (more words for the group to scope), words of the title keep theirs
+RECURSIVE GrpSafe(_)
+GrpSafe(q) == CASE q[1] = "all" -> <<"w", "", 1>>
+                [] q[1] = "w" -> <<"w", IF q[2] = "body" THEN "" ELSE q[2], q[3]>>
+                [] q[1] = "ph" -> <<"ph", IF q[2] = "body" THEN "" ELSE q[2], q[3], q[4], q[5]>>
+                [] q[1] = "bool" -> <<"bool", [x \in 1..Len(q[2]) |-> <<q[2][x][1], GrpSafe(q[2][x][2])>>]>>
+                [] q[1] = "grp" -> <<"grp", q[2], [x \in 1..Len(q[3]) |-> <<q[3][x][1], GrpSafe(q[3][x][2])>>]>>
+                [] q[1] = "bin" -> <<"bin", [x \in 1..Len(q[2]) |-> GrpSafe(q[2][x])], q[3]>>
+                [] q[1] = "chain" -> <<"chain", [x \in 1..Len(q[2]) |-> <<q[2][x][1], GrpSafe(q[2][x][2])>>], q[3]>>
+                [] q[1] = "paren" -> <<"paren", GrpSafe(q[2])>>
+                [] q[1] = "boost" -> <<"boost", GrpSafe(q[2]), q[3]>>
+                [] OTHER -> q
 RECURSIVE Composite(_, _, _), Operand(_, _, _)
 Operand(r, k, depth) ==
   IF depth = 0 \/ R(r, k) % 3 # 0 THEN
@@ -74,14 +87,46 @@ Composite(r, k, depth) ==
          LET cl == [x \in 1..n |-> <<Occ(R(r, k + 1 + x)), Operand(r, k + 7 * x, depth)>>]
          IN  <<"bool", IF \A x \in 1..n : cl[x][1] = "-" THEN [cl EXCEPT ![1] = <<"+", cl[1][2]>>] ELSE cl>>
     [] c \in {2, 3} -> <<"bin", [x \in 1..n |-> Operand(r, k + 7 * x, depth)], [x \in 1..(n - 1) |-> IF R(r, k + 2 + x) % 2 = 0 THEN "AND" ELSE "OR"]>>
-    [] c = 4 -> <<"grp", IF R(r, k + 2) % 2 = 0 THEN "title" ELSE "body",
-                  [x \in 1..n |-> <<(<<"", "+", "">>)[(R(r, k + 2 + x) % 3) + 1],
-                                    IF R(r, k + 5 + x) % 4 = 0 THEN <<"ph", "", <<1 + (R(r, k + 6 + x) % NW), 1 + (R(r, k + 8 + x) % NW)>>, 0, FALSE>>
-                                    ELSE <<"w", "", 1 + (R(r, k + 6 + x) % NW)>>>>]>>
+    [] c = 4 \/ (c = 7 /\ R(r, k + 6) % 2 = 0) ->    \* a field group whose members carry every decoration (markers, boosts, parentheses, chains)
+         LET f == IF R(r, k + 2) % 2 = 0 THEN "title" ELSE "body"
+             mem(x) == LET o == GrpSafe(Operand(r, k + 7 * x, depth)) IN
+                       IF R(r, k + 3 + x) % 3 = 0 THEN <<"boost", IF o[1] = "rng" THEN <<"paren", o>> ELSE o, (<<0, 2, 3>>)[1 + (R(r, k + 4 + x) % 3)]>> ELSE o
+             cl == [x \in 1..n |-> <<(<<"", "+", "", "-">>)[(R(r, k + 2 + x) % 4) + 1], mem(x)>>]
+         IN  <<"grp", f, IF \A x \in 1..n : cl[x][1] = "-" THEN [cl EXCEPT ![1] = <<"+", cl[1][2]>>] ELSE cl>>
     [] c = 6 -> <<"chain", [x \in 1..n |-> <<(<<"", "", "-", "+", "-", "NOT">>)[(R(r, k + 1 + x) % 6) + 1], Operand(r, k + 7 * x, depth)>>],
                            [x \in 1..(n - 1) |-> (<<"AND", "OR", "OR", "">>)[(R(r, k + 4 + x) % 4) + 1]]>>
     [] c = 5 -> LET o == Operand(r, k + 2, depth) IN <<"boost", IF o[1] = "rng" THEN <<"paren", o>> ELSE o, 2 + (R(r, k + 1) % 3)>>
     [] OTHER -> FixLeaf(Leaf(r, k + 1))
+\* steering: the parser drops a clause that repeats an earlier one of the same list, and an unmarked
+\* parenthesised list left with ONE clause dissolves into its parent together with that clause's marker
+\* (`x (a AND a)` becomes `x +a`).  Whether two clauses repeat each other depends on how they are written
+\* (quotes), so no list gets two operands that are the same once fields are filled in: a repeated operand
+\* is replaced by n:1x (matches nothing)
+RECURSIVE NormQ(_, _), Distinct(_, _)
+NormQ(q, sc) ==
+  CASE q[1] = "w" -> <<"w", IF q[2] = "" THEN sc ELSE q[2], q[3]>>
+    [] q[1] = "ph" -> <<"ph", IF q[2] = "" THEN sc ELSE q[2], q[3], q[4], q[5]>>
+    [] q[1] = "paren" -> NormQ(q[2], sc)
+    [] q[1] = "boost" -> <<"boost", NormQ(q[2], sc), q[3]>>
+    [] q[1] = "bool" -> <<"bool", [x \in 1..Len(q[2]) |-> <<q[2][x][1], NormQ(q[2][x][2], sc)>>]>>
+    [] q[1] = "grp" -> <<"bool", [x \in 1..Len(q[3]) |-> <<q[3][x][1], NormQ(q[3][x][2], q[2])>>]>>
+    [] q[1] = "bin" -> <<"bin", [x \in 1..Len(q[2]) |-> NormQ(q[2][x], sc)], q[3]>>
+    [] q[1] = "chain" -> <<"chain", [x \in 1..Len(q[2]) |-> <<q[2][x][1], NormQ(q[2][x][2], sc)>>], q[3]>>
+    [] OTHER -> q
+\* (the parser compares clauses WITH their markers: `+a a` keeps both - only a repetition under the same
+\*  marker is replaced in a clause list; in AND / OR chains the markers are implied, every repetition is)
+NoRepeat(ops, occ, sc) ==     \* a sequence of operands and their markers
+  [x \in 1..Len(ops) |-> IF \E y \in 1..(x - 1) : occ[y] = occ[x] /\ NormQ(ops[y], sc) = NormQ(ops[x], sc) THEN <<"num", "n", 10 + x>> ELSE ops[x]]
+Same(n) == [x \in 1..n |-> ""]
+Distinct(q, sc) ==
+  CASE q[1] = "bool" -> LET ops == NoRepeat([x \in 1..Len(q[2]) |-> Distinct(q[2][x][2], sc)], [x \in 1..Len(q[2]) |-> q[2][x][1]], sc) IN <<"bool", [x \in 1..Len(q[2]) |-> <<q[2][x][1], ops[x]>>]>>
+    [] q[1] = "grp" -> LET ops == NoRepeat([x \in 1..Len(q[3]) |-> Distinct(q[3][x][2], q[2])], [x \in 1..Len(q[3]) |-> q[3][x][1]], q[2]) IN <<"grp", q[2], [x \in 1..Len(q[3]) |-> <<q[3][x][1], ops[x]>>]>>
+    [] q[1] = "bin" -> <<"bin", NoRepeat([x \in 1..Len(q[2]) |-> Distinct(q[2][x], sc)], Same(Len(q[2])), sc), q[3]>>
+    [] q[1] = "chain" -> LET ops == NoRepeat([x \in 1..Len(q[2]) |-> Distinct(q[2][x][2], sc)], Same(Len(q[2])), sc) IN <<"chain", [x \in 1..Len(q[2]) |-> <<q[2][x][1], ops[x]>>], q[3]>>
+    [] q[1] = "paren" -> <<"paren", Distinct(q[2], sc)>>
+    [] q[1] = "boost" -> <<"boost", Distinct(q[2], sc), q[3]>>
+    [] OTHER -> q
+
 \* queries made only of exclusions (refused by the parser; the lenient parser answers the rest)
 OnlyNegative(r, k) == <<"bool", [x \in 1..(1 + (R(r, k) % 2)) |-> <<"-", <<"w", Fld3(R(r, k + x)), 1 + (R(r, k + 2 + x) % NW)>>>>]>>
 
@@ -105,7 +150,7 @@ NewQuery ==
                  Pick(Rnd), Pick(Rnd), Pick(Rnd), Pick(Rnd), Pick(Rnd), Pick(Rnd), Pick(Rnd)>>} :
        LET q == CASE r[1] % 12 = 0 -> OnlyNegative(r, 2)
                   [] r[1] % 36 = 1 -> <<"ex", (<<"n", "i", "d", "ip">>)[(r[2] % 4) + 1]>>
-                  [] OTHER -> Composite(r, 2, 2)
+                  [] OTHER -> Distinct(Composite(r, 2, 2), "")
            texts == [x \in 1..NTexts |-> PrintQ(q, [y \in 1..11 |-> R(r, 3 * x + 5 * y)])]
        IN  PrintT(<<"CASE", ToJson([q |-> q, texts |-> texts])>>)
   /\ done' = TRUE /\ UNCHANGED s
